@@ -496,10 +496,10 @@ func (e *Exec) convert(x Value, from, to types.Type) Value {
 			return e.fromTerm(e.TB.ZExt(v.T, tw))
 		}
 		if isString(tu) { // string(rune)
-			if v.T != nil {
-				e.unsupported("string(symbolic rune)")
-			}
 			_, fsigned, _ := intWidth(fu)
+			if v.T != nil {
+				return e.runeToString(v, fsigned)
+			}
 			c := int64(v.C)
 			if fsigned {
 				c = int64(sxt(v.C, v.W))
@@ -805,4 +805,53 @@ func (e *Exec) selectStmt(fr *frame, in *ssa.Select) Value {
 		res[1] = Bool{C: false}
 	}
 	return res
+}
+
+// runeToString implements string(r) for a symbolic integer r: forks on the UTF-8 length class.
+func (e *Exec) runeToString(v Int, signed bool) Str {
+	tb := e.TB
+	var r *term.Term // 32-bit code point
+	switch {
+	case v.W == 32:
+		r = v.T
+	case v.W < 32:
+		if signed {
+			r = tb.SExt(v.T, 32)
+		} else {
+			r = tb.ZExt(v.T, 32)
+		}
+	default:
+		// out of int32 range -> U+FFFD
+		hi := tb.Extract(v.T, 63, 31)
+		inRange := tb.Or(tb.Eq(hi, tb.Const(33, 0)), tb.False)
+		if !e.branch(inRange) {
+			return e.strFromGo("\uFFFD")
+		}
+		r = tb.Extract(v.T, 31, 0)
+	}
+	c := func(x uint64) *term.Term { return tb.Const(32, x) }
+	b8 := func(t *term.Term) Value { return e.fromTerm(tb.Extract(t, 7, 0)) }
+	if e.branch(tb.Ult(r, c(0x80))) {
+		return e.strFromBytes([]Value{b8(r)})
+	}
+	if e.branch(tb.Ult(r, c(0x800))) {
+		return e.strFromBytes([]Value{
+			b8(tb.BOr(c(0xC0), tb.LShr(r, c(6)))),
+			b8(tb.BOr(c(0x80), tb.BAnd(r, c(0x3F))))})
+	}
+	bad := tb.Or(tb.Ult(c(0x10FFFF), r), tb.And(tb.Ule(c(0xD800), r), tb.Ule(r, c(0xDFFF))))
+	if e.branch(bad) {
+		return e.strFromGo("\uFFFD")
+	}
+	if e.branch(tb.Ult(r, c(0x10000))) {
+		return e.strFromBytes([]Value{
+			b8(tb.BOr(c(0xE0), tb.LShr(r, c(12)))),
+			b8(tb.BOr(c(0x80), tb.BAnd(tb.LShr(r, c(6)), c(0x3F)))),
+			b8(tb.BOr(c(0x80), tb.BAnd(r, c(0x3F))))})
+	}
+	return e.strFromBytes([]Value{
+		b8(tb.BOr(c(0xF0), tb.LShr(r, c(18)))),
+		b8(tb.BOr(c(0x80), tb.BAnd(tb.LShr(r, c(12)), c(0x3F)))),
+		b8(tb.BOr(c(0x80), tb.BAnd(tb.LShr(r, c(6)), c(0x3F)))),
+		b8(tb.BOr(c(0x80), tb.BAnd(r, c(0x3F))))})
 }
